@@ -2,10 +2,16 @@
 Line-protocol driver for C01 (runs the definitions of GPVerif/Model/ExactGP.lean at ℚ).
 
 Requests (one per line; matrices as `rows cols v11 v12 …`, exact rationals, no separators):
-  post  n s  J[(n+s)×(n+s)] mj[(n+s)×1] S[n×n] y[n×1] St[s×s]
-        -> ok alpha | mean | covar | covarNoisy | Ainv            (or `singular`)
-  root  n s k  Ktt[s×s] Kts[s×n] R[n×k]
-        -> ok predCovarRoot | R Rᵀ                                (fast path from the *observed* covar_cache)
+  post  n s  J[(n+s)×(n+s)] mj[(n+s)×1] S[n×n] y[n×1] St[s×s]  c cfg_1 … cfg_c
+        -> ok alpha | mean | covar | covarNoisy | Ainv | gmean_1 | gcovar_1 | … | gmean_c | gcovar_c   (or `singular`)
+           the first five from the hand-written model (the specification, `ExactGP.posterior`), the g* from the
+           GENERATED `Gen.ExactAlgebra.exact_prediction` (translator G7) under the branch configuration cfg_i
+           (bit mask: 1 fast, 2 skip, 4 detach, 8 eager, 16 ttDim2; policy ignore; only non-fast or skip cfgs);
+           `nogen` in place of a pair when the generated function returns none
+  root  n s k  J[(n+s)×(n+s)] R[n×k] cfg
+        -> ok covar | R Rᵀ | predCovarRoot      covar = GENERATED split + `exact_predictive_covar` on its fast_pred_var
+           branch (cfg has bit 1, bit 8 = eager) at the *observed* covar_cache R; predCovarRoot = hand-written model
+           (= the specification given R)
   given n s  mt[s×1] Kts[s×n] a[n×1]
         -> ok predMean                                            (mean from the *observed* mean_cache)
   solve n s  Ktt[s×s] Kts[s×n] X[n×s]
@@ -14,8 +20,13 @@ Requests (one per line; matrices as `rows cols v11 v12 …`, exact rationals, no
         -> ok cholSolve                                           (or `singular`)
 -/
 import GPVerif.Model.ExactGP
+import GPVerif.Gen.ExactAlgebra
 import GPVerif.Model.Proto
 open Proto ExactGP
+
+def cfgOf (code : Nat) (pol : Policy) : Gen.ExactAlgebra.Cfg :=
+  { fast := code % 2 == 1, skip := (code / 2) % 2 == 1, detach := (code / 4) % 2 == 1, eager := (code / 8) % 2 == 1,
+    ttDim2 := (code / 16) % 2 == 1, ttIsTensor := (code / 32) % 2 == 1, cache4d := false, policy := pol }
 
 def takeD (n m : Nat) (ts : List String) : Option (DMat n m Rat × List String) := do
   let (r, c, rows, rest) ← takeMat? ts
@@ -30,16 +41,34 @@ def stepPost (n s : Nat) (ts : List String) : Option String := do
   let (mj, ts) ← takeD (n + s) 1 ts
   let (S, ts) ← takeD n n ts
   let (y, ts) ← takeD n 1 ts
-  let (St, _) ← takeD s s ts
+  let (St, ts) ← takeD s s ts
+  let codes : List Nat := match ts with
+    | c :: rest => (rest.take (c.toNat?.getD 0)).filterMap String.toNat?
+    | [] => []
   match posterior J mj S y St with
-  | some P => some (reply [showD P.alpha, showD P.mean, showD P.covar, showD P.covarNoisy, showD P.Ainv])
+  | some P =>
+    let A := marginal (trainBlock J) S
+    let mx := (splitMean mj).1
+    let gen := codes.map fun code =>
+      match Gen.ExactAlgebra.exact_prediction (cfgOf code Policy.ignore) J mj A mx y (DMat.zero : DMat n 1 Rat)
+              (fun _ => true) 0 with
+      | some (m, C) => showD m ++ " | " ++ showD C
+      | none => "nogen"
+    some (reply ([showD P.alpha, showD P.mean, showD P.covar, showD P.covarNoisy, showD P.Ainv] ++ gen))
   | none => some "singular"
 
 def stepRoot (n s k : Nat) (ts : List String) : Option String := do
-  let (Ktt, ts) ← takeD s s ts
-  let (Kts, ts) ← takeD s n ts
-  let (R, _) ← takeD n k ts
-  some (reply [showD (predCovarRoot Ktt Kts R), showD (rootGram R)])
+  let (J, ts) ← takeD (n + s) (n + s) ts
+  let (R, ts) ← takeD n k ts
+  let code := (ts.head?.bind String.toNat?).getD 1
+  let cfg := cfgOf code Policy.ignore
+  -- the generated split (eager / lazy as in cfg) feeds the generated fast-path covariance
+  let sp := Gen.ExactAlgebra.split cfg J (DMat.zero : DMat (n + s) 1 Rat)
+  let hand := predCovarRoot (splitLazy J).2 (splitLazy J).1 R
+  match Gen.ExactAlgebra.exact_predictive_covar { cfg with ttIsTensor := cfg.eager } sp.2.2.1 sp.2.2.2
+          (DMat.zero : DMat n n Rat) R (fun _ => true) with
+  | some C => some (reply [showD C, showD (rootGram R), showD hand])
+  | none => some "nogen"
 
 def stepGiven (n s : Nat) (ts : List String) : Option String := do
   let (mt, ts) ← takeD s 1 ts
